@@ -908,10 +908,10 @@ impl<'a> Check<'a> {
             small.quads = small.quads.iter().enumerate().filter(|(i, _)| idx.contains(i)).map(|(_, q)| q.clone()).collect();
             small.stmts = vec![];
             if self.does_load_fail(&SparqlDatabase::new, &small, 1) {
-                return "nothing_fails_for_a_small_document_in_an_empty_database";
+                return "nothing";
             }
         } else if self.does_load_fail(&SparqlDatabase::new, self.doc, 1) {
-            return if self.doc.n_chunks() > 1 { "document_size_or_content" } else { "nothing_fails_for_a_small_document_in_an_empty_database" };
+            return if self.doc.n_chunks() > 1 || self.doc.units() > 200 { "document_size_or_content" } else { "nothing" };
         }
         if self.does_load_fail(&SparqlDatabase::new, self.doc, 1) {
             return "document_size";
@@ -1395,7 +1395,7 @@ fn run(ctx: &mut Ctx) {
     }
 
     // ---- phase 2: random documents x random priors x pools
-    ctx.phase("random", ctx.by_tier(7_000, 400_000));
+    ctx.phase("random", ctx.by_tier(4_500, 400_000));
     while let Some(k) = ctx.next_case() {
         if !ctx.within(0.8) {
             break;
@@ -1423,7 +1423,7 @@ fn run(ctx: &mut Ctx) {
     }
 
     // ---- phase 3: the same triples in every format
-    ctx.phase("formats", ctx.by_tier(1_600, 80_000));
+    ctx.phase("formats", ctx.by_tier(1_400, 80_000));
     while let Some(k) = ctx.next_case() {
         let mut r = ctx.rng(k);
         let n = match r.below(20) {
@@ -1583,13 +1583,24 @@ fn witnesses(ctx: &mut Ctx) {
     let a = ("http://k/a", "http://k/b", "http://k/c");
     let d = ("http://k/d", "http://k/e", "http://k/f");
     let nt = |t: &(&str, &str, &str)| format!("<{}> <{}> <{}> .", t.0, t.1, t.2);
-    ctx.phase("witnesses", 2 * 6);
+    ctx.phase("witnesses", 2 * 6 + 3);
     while let Some(k) = ctx.next_case() {
         // every witness for N3 (k even) and for N-Triples resp. Turtle (k odd)
         let n3 = k % 2 == 0;
         let line_fmt = if n3 { Fmt::N3 } else { Fmt::NTriples };
         let pre_fmt = if n3 { Fmt::N3 } else { Fmt::Turtle };
         let mut r = ctx.rng(k);
+        if k >= 12 {
+            // an IRI with a fragment, the remaining three loaders
+            let t = ("http://h.org/ns#a", "http://k/b", "http://k/c");
+            let fmt = [Fmt::NQuads, Fmt::Turtle, Fmt::RdfXml][(k - 12) as usize];
+            let o = DocOpts { target: 1, prefix_mode: PrefixMode::None, style: Style::Flat, comments: false, crlf: false, trailing_newline: true, dup12: 0, compact: false, sparql_prefix: false };
+            let doc = render_triples(&mut r, fmt, &[(t.0.to_string(), t.1.to_string(), t.2.to_string())], &o);
+            let base = render_triples(&mut r, fmt, &[(a.0.to_string(), a.1.to_string(), a.2.to_string())], &o);
+            ctx.note("witnesses", &format!("{}:iri_with_fragment", fmt.name()));
+            feature_check(ctx, fmt, &doc, &base, "iri_with_fragment", true);
+            continue;
+        }
         let (name, doc, prior): (&str, Doc, PriorKind) = match k / 2 {
             0 => ("one_triple_into_a_dictionary_holding_one_unrelated_term", hand_doc(line_fmt, vec![nt(&a)], &[a], vec![(0, 0, vec![0])]), PriorKind::DictOneTerm),
             1 => {
